@@ -287,6 +287,70 @@ func c09CheckBuild(res *engine.Result, sec *ref.S35Section, events bool) {
 	res.Outcomes = append(res.Outcomes, engine.Hash64(ref.S35SectionBytes(sec)))
 }
 
+// ---- scenario "over-wide-values": arguments wider than their field ------------------------------------------
+
+type c09WideCase struct {
+	Field string `json:"field"`
+	High  int    `json:"bits_above_the_field"`
+}
+
+// c09CheckWide: a value wider than its field is handed to a setter; the ENCODING must carry the value
+// truncated to the field width and nothing else may change (what the getter then reports - the value as
+// set or as truncated - is not judged for the setters that are not documented to truncate).
+func c09CheckWide(c c09WideCase) engine.Result {
+	var res engine.Result
+	lows := []uint64{0, 1, 5, 0x155555555 & 0x1FFFFFFFF, 0x1FFFFFFFF}
+	sec := ref.S35Canonical()
+	segBase := ref.S35Seg{EventID: 7, HasDuration: true, Duration: 2700000, Web: true, Archive: true, Device: 2, UPIDType: 0x08, UPID: []byte{1, 2, 3, 4, 5, 6, 7, 8}, TypeID: 0x30, SegNum: 1, SegsExpected: 2,
+		Comps: []ref.S35Offset{{Tag: 3, Offset: 9}, {Tag: 4, Offset: 0x1FFFFFFFF}}}
+	switch c.Field {
+	case "splice_insert break_duration":
+		sec.CmdType = ref.S35CmdInsert
+		sec.Insert = ref.S35Insert{EventID: 3, Out: true, Program: true, Immediate: true, HasDuration: true, AutoReturn: true, Duration: 5, UniqueProgramID: 0xFFFF, AvailNum: 1, AvailsExpected: 2}
+	default:
+		sec.CmdType, sec.Time = ref.S35CmdTime, ref.S35Time{Specified: true, PTS: 0x123456789}
+	}
+	sec.Descs = []ref.S35Desc{c09SegD(segBase)}
+	class := c08CmdClass(&sec)
+	for _, low := range lows {
+		want := sec
+		want.Descs = []ref.S35Desc{c09SegD(segBase)}
+		want.Descs[0].Seg.Comps = append([]ref.S35Offset(nil), segBase.Comps...)
+		high := uint64(c.High)
+		cmp := &c08Cmp{res: &res, op: "UpdateData", what: fmt.Sprintf("%s set to a value with the bits %#x above the field and low part %#x", c.Field, c.High, low)}
+		var out []byte
+		if engine.Guard(&res, "over-wide "+c.Field, func() {
+			s := c09Build(&sec, false)
+			switch c.Field {
+			case "splice_insert break_duration":
+				low33 := low & 0x1FFFFFFFF
+				c09Ins(s).SetDuration(gots.PTS(high<<33 | low33))
+				want.Insert.Duration = low33
+			case "segmentation pts_offset":
+				low33 := low & 0x1FFFFFFFF
+				c09D0(s).Components()[0].SetPTSOffset(gots.PTS(high<<33 | low33))
+				want.Descs[0].Seg.Comps[0].Offset = low33
+			case "segmentation device_restrictions":
+				v := uint8(high<<2 | low&3)
+				c09D0(s).SetDeviceRestrictions(scte35.DeviceRestrictions(v))
+				want.Descs[0].Seg.Device = uint8(low & 3)
+			case "signal pts":
+				low33 := low & 0x1FFFFFFFF
+				s.SetPTS(gots.PTS(high<<33 | low33))
+				want.Time.PTS = low33
+			}
+			out = s.UpdateData()
+		}) {
+			return res
+		}
+		res.Evals++
+		res.Nontrivial++
+		c09Judge(cmp, class, out, &want, false)
+	}
+	res.Outcome(c.Field, c.High)
+	return res
+}
+
 // c09ModelCmdPTS is what CommandInfo().PTS() returns for the logical value: the stored pts_time
 // whether or not it is transmitted.
 func c09ModelCmdPTS(s *ref.S35Section) (uint64, bool) {
@@ -1046,6 +1110,21 @@ func init() {
 					return res
 				},
 				Batch: 1,
+			},
+			&engine.Enum[c09WideCase]{
+				Name: "over-wide-values",
+				Rule: "the setters that are not documented to truncate (splice_insert SetDuration, component SetPTSOffset, SetDeviceRestrictions, signal SetPTS) called with values that carry 1, 2, 3, 0x40 or 0x7FFFFFFF in the bits above their field x 5 low parts (0, 1, 5, alternating, all ones): the next encoding must be the reference encoding with the value truncated to the field width, every other field untouched (the getter is not judged)",
+				Gen: func(r *engine.Run, emit func(c09WideCase)) {
+					for _, f := range []string{"splice_insert break_duration", "segmentation pts_offset", "segmentation device_restrictions", "signal pts"} {
+						for _, h := range []int{1, 2, 3, 0x40, 0x7FFFFFFF} {
+							if f == "segmentation device_restrictions" && h > 0x3F {
+								continue
+							}
+							emit(c09WideCase{f, h})
+						}
+					}
+				},
+				Check: c09CheckWide, Batch: 1,
 			},
 			c09BFS("setters-signal-command", "BFS over setter histories of depth <= 3 (thorough 5) from CreateSCTE35() and from 19 decoded sections (every command shape, 0..3 descriptors); "+sigRule+bfsOracle,
 				c09SignalOps, c09InitIDs(false), 3, 5),
